@@ -1,1 +1,29 @@
 """SciPy solver integration."""
+
+from __future__ import annotations
+
+import sys
+import warnings
+
+
+def warn_always(message: str, stacklevel: int = 2) -> None:
+    """Issue a UserWarning that Python's once-per-location rule cannot swallow.
+
+    The warning is attributed to the frame `stacklevel` levels up (like
+    warnings.warn) but uses a throw-away registry, so a second model solved from
+    the same line of a loop or helper function is announced as well. Filters set
+    by the user ("ignore", "error", ...) are still honoured.
+    """
+    try:
+        frame = sys._getframe(stacklevel)
+    except ValueError:
+        frame = sys._getframe(1)
+    warnings.warn_explicit(
+        message,
+        UserWarning,
+        filename=frame.f_code.co_filename,
+        lineno=frame.f_lineno,
+        module=frame.f_globals.get("__name__", "<unknown>"),
+        registry={},
+        module_globals=frame.f_globals,
+    )
